@@ -1363,7 +1363,9 @@ class C12(SearchCheck):
     rule = ("each request runs [search p, search q, ucinewgame, search p] on one state and, separately, [search p] on a "
             "fresh state: the post-ucinewgame search must reproduce the fresh one verbatim (best move, scores, lines, node "
             "counts, table fill); the whole stream is executed twice, the second time under CPU load, and must be "
-            "identical; the search model must reproduce every info line verbatim; distinct = distinct requests")
+            "identical; the search model must reproduce every info line verbatim; plus 30 implementation-only pairs with "
+            "depth-6 (thorough 8) searches, which fill the killer / counter / history tables of both colours; "
+            "distinct = distinct requests")
     assumptions = ["independence from wall-clock time and machine load is sampled (two runs, one under load), not proved"]
 
     def extra_phase(self, harness_bin):
@@ -1398,6 +1400,56 @@ class C12(SearchCheck):
                     keys = [key for key in x if x[key] != y.get(key)]
                     issues.append(Issue("oracle", reqs[k], first[k], first[k + 1], "",
                                         f"after ucinewgame the search differs from a fresh engine in {keys}", "newgame"))
+        if not self._replay:
+            issues += self.deep_phase(harness_bin)
+        return issues
+
+    DEEP = ["rnbqkbnr/pppppppp/8/8/8/8/PPPPPPPP/RNBQKBNR w KQkq - 0 1",
+            "r1bqkb1r/pppp1ppp/2n2n2/4p3/2B1P3/5N2/PPPP1PPP/RNBQK2R w KQkq - 4 4",
+            "r3k2r/p1ppqpb1/bn2pnp1/3PN3/1p2P3/2N2Q1p/PPPBBPPP/R3K2R w KQkq - 0 1",
+            "rnbqkb1r/pp2pppp/3p1n2/8/3NP3/8/PPP2PPP/RNBQKB1R w KQkq - 1 5",
+            "r1bq1rk1/pp2bppp/2n1pn2/3p4/2PP4/2N1PN2/PP2BPPP/R1BQ1RK1 b - - 0 8",
+            "8/2p5/3p4/KP5r/1R3p1k/8/4P1P1/8 w - - 0 1"]
+
+    def deep_phase(self, harness_bin):
+        """implementation only (the search model is ~300x slower): deeper first searches fill the killer / counter /
+        history tables of both colours far more than the depth-4 jobs of the main stream; after ucinewgame the
+        search must still equal a fresh engine's"""
+        issues = []
+        depth = 6 if self.tier == "quick" else 8
+        lines = []
+        n = 0
+        for a in self.DEEP:
+            for b in self.DEEP:
+                if a == b:
+                    continue
+                n += 1
+                lines.append(f"search\t1\t{a}||{depth}|0|0;{b}||{depth}|0|0;N;{b}||{depth}|0|0")
+                lines.append(f"search\t1\t{b}||{depth}|0|0")
+        req_path = os.path.join(self.wd, "deep.req")
+        with open(req_path, "w") as f:
+            f.write("\n".join(lines) + "\n")
+        out = os.path.join(self.wd, "deep.impl")
+        vlib.serve(harness_bin, req_path, out)
+        ans = vlib.read_lines(out)
+        for k in range(0, len(lines) - 1, 2):
+            self.evaluations += 1
+            self.features["deep-newgame-pairs"] = self.features.get("deep-newgame-pairs", 0) + 1
+            if k + 1 >= len(ans):
+                issues.append(Issue("oracle", lines[k], "", "", "", "no answer for a deep newgame pair", "deep-newgame"))
+                continue
+            ja = [j for j in parse_jobs(ans[k]) if "marker" not in j]
+            jb = parse_jobs(ans[k + 1])
+            if len(ja) == 3 and len(jb) == 1 and "best" in ja[2] and "best" in jb[0]:
+                x, y = dict(ja[2]), dict(jb[0])
+                if x != y:
+                    keys = [key for key in x if x[key] != y.get(key)]
+                    issues.append(Issue("oracle", lines[k], ans[k], ans[k + 1], "",
+                                        f"after ucinewgame the depth-{depth} search differs from a fresh engine in {keys}",
+                                        "deep-newgame"))
+            else:
+                issues.append(Issue("oracle", lines[k], ans[k][:300], ans[k + 1][:300], "",
+                                    "a deep search did not complete (crash?)", "deep-newgame"))
         return issues
 
     def judge_job(self, req, job, res, verdict):
